@@ -58,8 +58,8 @@ M = {
     ],
     "C01": [
         ("benign: branch-sum rows built with an explicit loop", I + "compiler/cfg_compiler.py",
-         "            branch_port = choose_vars_for_tuple_sum(\n                unit_sum=branch_port,\n                output_vars=[\n                    [v for v in sort_vars(row) if v.ty.droppable]\n                    for row in bb.sig.output_rows\n                ],\n                dfg=dfg,\n            )",
-         "            sum_rows = []\n            for row in bb.sig.output_rows:\n                sum_rows.append([v for v in sort_vars(row) if v.ty.droppable])\n            branch_port = choose_vars_for_tuple_sum(\n                unit_sum=branch_port,\n                output_vars=sum_rows,\n                dfg=dfg,\n            )", None),
+         "            branch_port = choose_vars_for_tuple_sum(\n                unit_sum=branch_port,\n                output_vars=[\n                    [v for v in sort_vars(row) if not v.ty.linear]\n                    for row in bb.sig.output_rows\n                ],\n                dfg=dfg,\n            )",
+         "            sum_rows = []\n            for row in bb.sig.output_rows:\n                sum_rows.append([v for v in sort_vars(row) if not v.ty.linear])\n            branch_port = choose_vars_for_tuple_sum(\n                unit_sum=branch_port,\n                output_vars=sum_rows,\n                dfg=dfg,\n            )", None),
     ],
     "C05": [
         ("benign: reflected fallback spelled with named locals", I + "checker/expr_checker.py",
